@@ -170,6 +170,42 @@ fn awareness_case(seed: u64, index: u64, md: &mut Model, rep: &mut Report) {
     if rep.samples.len() < 4 { rep.sample(json!({"kind": "awareness", "case": index, "script": script, "updates": updates.iter().map(upd_dump).collect::<Vec<_>>()})); }
 }
 
+/// a busy room: one awareness update carrying hundreds of clients survives the wire, reaches a joining peer through
+/// Protocol::start / handle, and the Coq decoder reads the same entries
+fn big_room_case(seed: u64, index: u64, md: &mut Model, rep: &mut Report) {
+    let mut r = Rng::for_case(seed, 318, index);
+    let n = *r.pick(&[1usize, 2, 200, 255, 256, 257, 258, 300, 511, 512, 513, 1000]) + r.below(3) as usize;
+    let mut clients = std::collections::HashMap::new();
+    for i in 0..n { clients.insert(ClientID::new(1000 + i as u64 * 3), AwarenessUpdateEntry { clock: 1 + r.below(5) as u32, json: format!("{{\"n\":{}}}", i).into() }); }
+    let u = AwarenessUpdate { clients };
+    let bytes = u.encode_v1();
+    rep.evaluations += 1; rep.count("big_rooms"); rep.nontrivial_case(&format!("room:{}", index));
+    let case = json!({"stream": 318, "index": index, "seed": seed, "clients": n});
+    match AwarenessUpdate::decode_v1(&bytes) {
+        Ok(d) => if d.clients.len() != n || d.clients.iter().any(|(c, e)| u.clients.get(c).map(|x| (x.clock, x.json.clone())) != Some((e.clock, e.json.clone()))) {
+            rep.fail(json!({"property": "C18", "class": "awareness-update-roundtrip-loses-entries", "sent": n, "decoded": d.clients.len(), "case": case})); },
+        Err(e) => rep.fail(json!({"property": "C18", "class": "awareness-update-rejected", "error": e.to_string(), "case": case})),
+    }
+    // a peer that joins: every client of the room is known to it afterwards
+    let mut room = Awareness::with_clock(mk_doc(1, DocCfg::default()), || 0u64);
+    let _ = room.apply_update(u);
+    let mut joiner = Awareness::with_clock(mk_doc(2, DocCfg::default()), || 0u64);
+    let proto = DefaultProtocol;
+    let mut enc = EncoderV1::new();
+    if proto.start(&room, &mut enc).is_ok() {
+        let frame = enc.to_vec();
+        let mut dec = yrs::updates::decoder::DecoderV1::from(frame.as_slice());
+        let mut reader = yrs::sync::MessageReader::new(&mut dec);
+        while let Some(Ok(msg)) = reader.next() { let _ = proto.handle_message(&mut joiner, msg); }
+        let known = joiner.iter().filter(|(_, s)| s.data.is_some()).count();
+        if known != n { rep.fail(json!({"property": "C18", "class": "joining-peer-misses-clients-of-the-room", "room": n, "known_after_handshake": known, "case": case})); }
+    }
+    // the model reads the same number of entries
+    let a = md.ask(&format!("DEC awareness {}", hex(&bytes)));
+    let entries = a.strip_prefix("ok ").map(|x| x.split(" rest=").next().unwrap_or("").split(',').filter(|e| !e.is_empty() && *e != "_").count());
+    if entries != Some(n) { rep.disagree(json!({"class": "awareness-decode-differs-from-model", "sent": n, "model": a.chars().take(200).collect::<String>(), "case": case})); }
+}
+
 pub fn run(tier: &str, seed: u64, workers: usize) -> Report {
     let (nh, na) = if tier == "thorough" { (10000, 5000) } else { (500, 300) };
     let mut total = parallel(workers, |w, nw| {
@@ -180,8 +216,11 @@ pub fn run(tier: &str, seed: u64, workers: usize) -> Report {
         for ci in 0..na { if ci as usize % nw != w { continue; }
             let res = { let mdr = &mut md; catch(std::panic::AssertUnwindSafe(|| { let mut r2 = Report::default(); awareness_case(seed, ci, mdr, &mut r2); r2 })) };
             match res { Ok(r2) => rep.merge(r2), Err(e) => { rep.evaluations += 1; rep.fail(json!({"property": "C18", "class": "panic", "error": e, "case": {"stream": 218, "index": ci}})); md = Model::spawn(); } } }
+        for ci in 0..(if na > 300 { 200 } else { 24 }) { if ci as usize % nw != w { continue; }
+            let res = { let mdr = &mut md; catch(std::panic::AssertUnwindSafe(|| { let mut r2 = Report::default(); big_room_case(seed, ci, mdr, &mut r2); r2 })) };
+            match res { Ok(r2) => rep.merge(r2), Err(e) => { rep.evaluations += 1; rep.fail(json!({"property": "C18", "class": "panic", "error": e, "case": {"stream": 318, "index": ci}})); md = Model::spawn(); } } }
         rep
     });
-    total.notes.push("handshake: two real Awareness+DefaultProtocol peers with prior divergence (optionally a shared past); both send start(); the two FIFO channels are drained in a seeded random interleaving mixed with concurrent local edits forwarded as Update messages; at quiescence both documents are equal (public and item level); every message is round-tripped. awareness: 2..4 producing clients (set / re-set / clean / timeout by a third party); every permutation of <= 5 updates (plus a duplicated delivery) applied to an observer and to a peer with a live local state: same registers for every order, clocks monotone, local state never erased; the Coq model (OpSet/Awareness.v) is compared after every apply".into());
+    total.notes.push("handshake: two real Awareness+DefaultProtocol peers with prior divergence (optionally a shared past); both send start(); the two FIFO channels are drained in a seeded random interleaving mixed with concurrent local edits forwarded as Update messages; at quiescence both documents are equal (public and item level); every message is round-tripped. awareness: 2..4 producing clients (set / re-set / clean / timeout by a third party); every permutation of <= 5 updates (plus a duplicated delivery) applied to an observer and to a peer with a live local state: same registers for every order, clocks monotone, local state never erased; the Coq model (OpSet/Awareness.v) is compared after every apply. big rooms: one awareness update with 1..1000 clients (sizes around 256 and 512 included) round-tripped, handed to a joining peer through start / handle, and decoded by the Coq decoder".into());
     total
 }
